@@ -198,6 +198,26 @@ def f_forall_in(ex, st, e, is_forall=True, with_idx=False):
     return _b(smt.exists([k], z3.And(rng, body), [At(sq, k)]))
 
 
+def f_forall_member(ex, st, e):
+    """forall_member(lst, lambda x: P): for every value x that is a member of lst (membership-triggered:
+    instantiated wherever `x in lst` is known, no position needed)"""
+    sq, ety = _elems(ex, st, e)
+    lam = e.args[1]
+    x = z3.Const(f"m!q{len(ex.bound_vars)}", Val)
+    name = lam.args.args[0].arg
+    saved = ex.quant_facts
+    ex.quant_facts = pre = []
+    try:
+        xsv = ex.wrap_elem(x, ety, st)
+    finally:
+        ex.quant_facts = saved
+    body, facts = _quant(ex, st, lam, [(name, xsv)], [x], True)
+    dom = Contains(sq, x)
+    f = z3.And(pre + facts) if (pre + facts) else z3.BoolVal(True)
+    _side(ex, st, [x], z3.Implies(dom, f), [Contains(sq, x)])
+    return _b(smt.forall([x], z3.Implies(z3.And(dom, f), body), patterns=[Contains(sq, x)]))
+
+
 def f_exists_in(ex, st, e):
     return f_forall_in(ex, st, e, False)
 
@@ -407,6 +427,11 @@ def f_oldf(ex, st, e):
     return ex.read_field(s, o, e.args[1].value, e)
 
 
+def f_nnodes(ex, st, e):
+    from .symexec import NNODES
+    return SV("int", NNODES, T("int"))
+
+
 def f_same(ex, st, e):
     heap, env, epoch = ex.old_stack[-1]
     s = State()
@@ -444,7 +469,7 @@ def f_realv(ex, st, e):
 SPEC_FUNCS = {
     "old": f_old, "implies": f_implies, "iff": f_iff,
     "forall_int": f_forall_int, "exists_int": f_exists_int,
-    "forall_in": f_forall_in, "exists_in": f_exists_in, "forall_idx": f_forall_idx,
+    "forall_in": f_forall_in, "forall_member": f_forall_member, "exists_in": f_exists_in, "forall_idx": f_forall_idx,
     "forall_obj": f_forall_obj, "exists_obj": f_exists_obj,
     "S": f_S, "append1": f_append1, "remove_at": f_remove_at, "remove1": f_remove1, "take": f_take,
     "drop": f_drop, "concat": f_concat, "index_of": f_index_of, "nodup": f_nodup,
@@ -454,6 +479,6 @@ SPEC_FUNCS = {
     "is_false": _valpred(lambda v: v == Val.boolv(False)), "is_dec": _valpred(lambda v: z3.Or(Val.is_decv(v), Val.is_dpinf(v))),
     "is_fin": _valpred(smt.isfin), "is_time": _valpred(lambda v: z3.Or(Val.is_intv(v), Val.is_realv(v), Val.is_pinf(v), Val.is_decv(v), Val.is_dpinf(v))), "is_pinf": _valpred(lambda v: Val.is_pinf(v)),
     "is_ref": _valpred(lambda v: Val.is_ref(v)), "is_str": _valpred(lambda v: Val.is_strv(v)),
-    "cls_is": f_cls_is, "is_obj": f_is_obj, "is_list": f_is_list, "as_obj": f_as_obj, "as_list": f_as_list, "alive": f_alive, "was_alive": f_was_alive, "oldf": f_oldf, "alive_before_loop": f_alive_before_loop, "same": f_same, "has": f_has,
+    "cls_is": f_cls_is, "is_obj": f_is_obj, "is_list": f_is_list, "as_obj": f_as_obj, "as_list": f_as_list, "alive": f_alive, "was_alive": f_was_alive, "oldf": f_oldf, "nnodes": f_nnodes, "alive_before_loop": f_alive_before_loop, "same": f_same, "has": f_has,
     "owner": f_owner, "ref_eq": f_ref_eq, "real": f_realv,
 }
